@@ -24,6 +24,11 @@ def run(ctx, rep):
     c06.pairing(prog, rep, "R01.1")
     c06.geometry_inputs(prog, rep, "R01.2")
     triangle(prog, rep)
+    try:
+        triangle_pixels_end(prog, rep)
+    except Exception as e:
+        import traceback; traceback.print_exc()
+        rep.fail("R01.6", "engine", "triangle pixel iterator analysis crashed: %r" % (e,), status="undecided")
     polyline(prog, rep)
     via_iterator(prog, rep)
     scanline_rect(prog, rep)
@@ -347,3 +352,31 @@ def image_paths(prog, rep):
     sz = prog.method1(IR, "size", "embedded_graphics_core::geometry::OriginDimensions")
     rep.check(strip_refs(Origins(sz).return_origin()) == size_f, "R01.5", "ImageRaw::size", "ImageRaw::size() must return the stored size", at=sz.span, fn=sz.path, nontrivial=False)
     rep.check(ok, "R01.5", "ImageRaw::draw", "ImageRaw::draw must be fill_contiguous(&self.bounding_box(), ContiguousPixels::new(self, self.size, 0, row_skip)); found %s" % ([show(x, maxd=4) for x in s[0][1][1:]] if s else "?"), at=d2.span, fn=d2.path)
+
+
+def triangle_pixels_end(prog, rep):
+    """R01.6 draw() of a styled triangle skips the scanlines whose colour role is absent (a stroke width without a stroke
+    colour, a border without fill) and goes on; pixels() must do the same: StyledPixelsIterator::next ends the iteration
+    (returns None) only on paths on which the scanline source `lines_iter.next()` is exhausted — not because the colour of
+    the *current* scanline is None, later scanlines may have one."""
+    from mirq.paths import Paths, Unsupported, show_fact
+    IT = PRIM + "triangle::styled::StyledPixelsIterator"
+    nx = prog.method1(IT, "next", "core::iter::traits::iterator::Iterator")
+    fidx = {f["name"]: i for i, f in enumerate(prog.adts[IT]["variants"][0]["fields"])}
+    src = ("field", P(1, "self"), fidx["lines_iter"])
+    try:
+        summs = Paths(prog, inline=lambda g: prog.is_new(g), loops="once", havoc=True).of(nx)
+    except Unsupported as e:
+        rep.fail("R01.6", "triangle:pixels-end", "cannot summarise: %s" % e, status="undecided", at=nx.span, fn=nx.path)
+        return
+    bad, n = [], 0
+    for sm in summs:
+        if sm.ret != ("agg", "core::option::Option::None", ()):
+            continue
+        n += 1
+        exhausted = any(fc[0] == "variant" and fc[2] == ("None",) and strip_refs(fc[1])[0] == "call" and strip_refs(fc[1])[1].split("::")[-1] == "next"
+                        and any(strip_refs(x) == src for x in walk(fc[1])) for fc in sm.facts)
+        if not exhausted:
+            bad.append("the iteration ends when %s" % ("; ".join(show_fact(x)[:70] for x in sm.facts[:3]) or "always"))
+    rep.check(not bad and n >= 1, "R01.6", "triangle:pixels-end", "pixels() of a styled triangle must end only when its scanline source is exhausted (draw() skips colourless scanlines and goes on): %s" % ("; ".join(sorted(set(bad))[:2]) or "no ending path found"),
+              at=nx.span, fn=nx.path, detail={"ending_paths": n})
